@@ -82,6 +82,19 @@ def apply():
     core._PATCH_REGISTRATIONS[re.Pattern.sub] = _sub
     core._PATCH_REGISTRATIONS[re.Pattern.subn] = _subn
     APPLIED.append('relib._subn: character after an empty match is copied, not dropped')
+
+    # 3. simplestructs.ShellMutableMap.copy() rebuilds the length from the inner map only and forgets the mutations:
+    #    the copy of a dict filled by item assignment has len 0 / is falsy although its items are there.
+    #    pyparsing's ParseResults.copy() + __iadd__ (`if other._tokdict:`) then drops every results name.
+    from crosshair import simplestructs
+
+    def _map_copy(self):
+        m = simplestructs.ShellMutableMap(self._inner)
+        m._mutations = self._mutations.copy()
+        m._len = self._len
+        return m
+    simplestructs.ShellMutableMap.copy = _map_copy
+    APPLIED.append('simplestructs.ShellMutableMap.copy: length of the copy taken from the original (was: inner map only)')
     import os
     if os.environ.get('VP_NO_PERF_PATCHES') != '1':
         APPLIED.extend(apply_perf())
